@@ -252,6 +252,24 @@ CHECKS = {
         "tables) are excluded by signature.",
         "DESIGN.md 5/C09",
     ),
+    "C07": (
+        "exploration",
+        "exhaustive enumeration of a program grammar (preludes x "
+        "non-terminating bodies x wrappers), each program executed in its own "
+        "watchdog'd child process, followed by benign invocations on the same "
+        "context",
+        "All 810 programs of the grammar (thorough; quick: every body, "
+        "wrapper and prelude at least once plus seeded random others) run "
+        "with a 1 s limit; expand() must return the timeout element within "
+        "6 s, restore the expansion and Lua stacks, and the same context must "
+        "then expand benign invocations, stop another endless loop and "
+        "process a new page correctly.",
+        "Wall-clock oracle with a 3 s margin (the statement is about bounded "
+        "time); trusts the Lua stand-in library; one listed known finding "
+        "(a single long C call is not interruptible) is excluded by "
+        "signature.",
+        "DESIGN.md 5/C07",
+    ),
 }
 
 NOT_YET = "check not built yet in this round (planned in DESIGN.md section 5)"
